@@ -11,9 +11,9 @@ Definition agree_step (m : res * list res * apist * localst) (b : obs) : bool :=
    && (Nat.eqb (List.length a) (List.length (oapi b))) && (Nat.eqb (List.length l) (List.length (oloc b))))%bool.
 
 Definition agree_hist (n : Z) (init : apist) (tr : list (op * obs)) : bool :=
-  forall2b agree_step (run n impl_delete_locks (C19_Model.init init) (map fst tr)) (map snd tr).
+  forall2b agree_step (run n impl_locks (C19_Model.init init) (map fst tr)) (map snd tr).
 
-(* clause layout: agree, ack, stop, load, deleted, filter *)
+(* clause layout: agree, ack, stop, load, deleted, filter, noregress *)
 Definition eval (c : case) : list bool :=
   match c with
   | CHist n init tr => agree_hist n init tr :: hist_ok n init tr
